@@ -254,17 +254,16 @@ def stkDelegate (c : VSt) (d : Addr) (amt : Int) : Res VSt :=
   | .err => .err
   | .panic => .panic
 
-/-- `Undelegate(d, shares)`: Unbond + an unbonding-delegation entry when the validator is bonded/unbonding -/
+/-- `Undelegate(d, shares)`: Unbond + an unbonding-delegation entry holding the returned tokens
+    (this SDK version creates the entry whatever the validator's status) -/
 def stkUndelegateShares (c : VSt) (d : Addr) (sh : Dec) : Res (VSt × Int) :=
   match c.val with
   | none => .err
-  | some v =>
+  | some _ =>
     match unbond c d sh with
     | .err => .err
     | .panic => .panic
-    | .ok (c1, amt) =>
-      if v.status = .unbonded then .ok (c1, amt)   -- tokens are returned at once
-      else .ok ({ c1 with ubd := updI c1.ubd d (c1.ubd d + amt) }, amt)
+    | .ok (c1, amt) => .ok ({ c1 with ubd := updI c1.ubd d (c1.ubd d + amt) }, amt)
 
 /-- MsgUndelegate (token amount) -/
 def stkUndelegate (c : VSt) (d : Addr) (amt : Int) : Res VSt :=
@@ -283,7 +282,11 @@ def stkRedelegateOut (c : VSt) (d : Addr) (amt : Int) : Res (VSt × Int) :=
   if c.redel d then .err else   -- transitive redelegation refused
   match validateUnbondAmount c d amt with
   | none => .err
-  | some sh => unbond c d sh
+  | some sh =>
+    match unbond c d sh with
+    | .err => .err
+    | .panic => .panic
+    | .ok (c1, tokens) => if tokens = 0 then .err else .ok (c1, tokens)   -- ErrTinyRedelegationAmount
 
 /-- destination half of MsgBeginRedelegate -/
 def stkRedelegateIn (c : VSt) (d : Addr) (tokens : Int) (fromBonded : Bool) : Res VSt :=
@@ -407,7 +410,8 @@ def step (g : Cfg) (M : Addr) (s : Chain) : Op → Res Chain
     | .err => .err
     | .panic => .panic
     | .ok (c1, tokens) =>
-      let fromBonded := match (s src).val with | some v => decide (v.status ≠ .unbonded) | none => false
+      -- `getBeginInfo`: a redelegation entry is recorded unless the source validator is (still there and) unbonded
+      let fromBonded := match c1.val with | some v => decide (v.status ≠ .unbonded) | none => true
       lift0 (updC s src c1) dst (stkRedelegateIn (s dst) d tokens fromBonded)
   | .slash v b => lift0 s v (stkSlash (s v) b)
   | .setStatus v st j => lift0 s v (stkSetStatus (s v) st j)
@@ -428,13 +432,13 @@ def run (g : Cfg) (M : Addr) : Chain → List Op → Option Chain
 structure TVal where
   tokens : Int
   shares : Dec
-  bonded : Bool
+  bonded : Bool        -- the validator is in `currValidators` (IterateBondedValidatorsByPower)
 deriving Repr, Inhabited
 
 /-- one stored vote with everything the handler looks up for its voter -/
 structure TVote where
   oper : Option Nat              -- index of the validator whose operator address equals the voter
-  opts : List (Nat × Dec)        -- weighted options: (option 0..3, weight)
+  opts : List (Nat × Dec)        -- weighted options: (option 1..4, weight)
   dels : List (Nat × Dec)        -- the voter's delegations (validator index, shares), store order
   wallet : List (Nat × Int)      -- derivative balances in x/bank (validator index, amount)
   savings : List (Nat × Int)     -- derivative coins of the voter's savings deposit
@@ -449,11 +453,16 @@ structure TAcc where
 
 def TAcc.init : TAcc := { res := fun _ => 0, total := 0, ded := fun _ => 0, vote := fun _ => [] }
 
-/-- `currValidators[v]` exists -/
-def inMap (vals : List TVal) (v : Nat) : Bool :=
+/-- the validator at index `v`; an index outside the table behaves like a validator that is not in the set -/
+def tvAt (vals : List TVal) (v : Nat) : TVal :=
   match vals[v]? with
-  | some tv => tv.bonded
-  | none => false
+  | some tv => tv
+  | none => { tokens := 0, shares := ⟨0⟩, bonded := false }
+
+/-- `currValidators[v]` exists -/
+def inMap (vals : List TVal) (v : Nat) : Bool := (tvAt vals v).bonded
+
+def bump (f : Nat → Int) (v : Nat) (d : Int) : Nat → Int := fun x => if x = v then f x + d else f x
 
 def amountOf (l : List (Nat × Int)) (v : Nat) : Int :=
   match l with
@@ -469,39 +478,46 @@ def addrBkava (n : Nat) (t : TVote) : List (Nat × Int) :=
 /-- `for _, option := range options { results[option] += power.Mul(weight) }` -/
 def addWeighted (res : Nat → Int) (power : Dec) : List (Nat × Dec) → Nat → Int
   | [] => res
-  | (o, w) :: t => addWeighted (fun x => if x = o then res x + (power.mul w).m else res x) power t
+  | (o, w) :: t => addWeighted (bump res o (power.mul w).m) power t
 
 /-- `delegation.GetShares().MulInt(val.BondedTokens).Quo(val.DelegatorShares)` -/
 def sharePower (tv : TVal) (sh : Dec) : Dec := (sh.mulInt tv.tokens).quo tv.shares
 
-/-- the `IterateDelegations` callback, over the voter's delegations -/
+/-- `GetStakedTokensForDerivatives` for one coin of a validator with these tokens and shares -/
+def stakedTok (tv : TVal) (amount : Int) : Int :=
+  (((Dec.ofInt amount).mulInt tv.tokens).quoTruncate tv.shares).truncateInt
+
+/-- the `IterateDelegations` callback for one delegation of the voter -/
+def delStep (vals : List TVal) (opts : List (Nat × Dec)) (a : TAcc) (v : Nat) (sh : Dec) : TAcc :=
+  if (tvAt vals v).bonded then
+    let p := sharePower (tvAt vals v) sh
+    { a with ded := bump a.ded v sh.m, res := addWeighted a.res p opts, total := a.total + p.m }
+  else a
+
 def delLoop (vals : List TVal) (opts : List (Nat × Dec)) (a : TAcc) : List (Nat × Dec) → TAcc
   | [] => a
-  | (v, sh) :: t =>
-    match vals[v]? with
-    | some tv =>
-      if tv.bonded then
-        let p := sharePower tv sh
-        delLoop vals opts { a with ded := fun x => if x = v then a.ded x + sh.m else a.ded x,
-                                   res := addWeighted a.res p opts, total := a.total + p.m } t
-      else delLoop vals opts a t
-    | none => delLoop vals opts a t
+  | (v, sh) :: t => delLoop vals opts (delStep vals opts a v sh) t
 
-/-- the loop over the voter's derivative coins; `none` = panic -/
+/-- the body of the loop over the voter's derivative coins; `none` = panic -/
+def bkStep (g : Cfg) (vals : List TVal) (opts : List (Nat × Dec)) (a : TAcc) (v : Nat) (amt : Int) : Option TAcc :=
+  let tv := tvAt vals v
+  -- F8 repair: `if !ok { continue }`
+  if g.tallySkipUnbonded = true ∧ tv.bonded = false then some a
+  -- GetStakedTokensForDerivatives: validator not found → error → panic (excluded by IsDerivativeDenom)
+  else if vals[v]?.isNone then none
+  -- TokensFromSharesTruncated divides by the validator's shares
+  else if tv.shares.m = 0 then none
+  else
+    let a1 := if tv.bonded then { a with ded := bump a.ded v (amt * P) } else a
+    let p := Dec.ofInt (stakedTok tv amt)
+    some { a1 with res := addWeighted a1.res p opts, total := a1.total + p.m }
+
 def bkLoop (g : Cfg) (vals : List TVal) (opts : List (Nat × Dec)) (a : TAcc) : List (Nat × Int) → Option TAcc
   | [] => some a
   | (v, amt) :: t =>
-    match vals[v]? with
-    | none => none    -- GetStakedTokensForDerivatives: validator not found → panic (excluded by IsDerivativeDenom)
-    | some tv =>
-      if g.tallySkipUnbonded = true ∧ tv.bonded = false then bkLoop g vals opts a t
-      else
-        let a1 := if tv.bonded then { a with ded := fun x => if x = v then a.ded x + amt * P else a.ded x } else a
-        match stakedTokens { tokens := tv.tokens, shares := tv.shares, status := .bonded, minSelf := 0, jailed := false, oper := 0 } amt with
-        | none => none
-        | some st =>
-          let p := Dec.ofInt st
-          bkLoop g vals opts { a1 with res := addWeighted a1.res p opts, total := a1.total + p.m } t
+    match bkStep g vals opts a v amt with
+    | none => none
+    | some a1 => bkLoop g vals opts a1 t
 
 /-- the `IterateVotes` callback -/
 def voteStep (g : Cfg) (vals : List TVal) (a : TAcc) (t : TVote) : Option TAcc :=
@@ -518,19 +534,18 @@ def voteLoop (g : Cfg) (vals : List TVal) (a : TAcc) : List TVote → Option TAc
     | none => none
     | some a1 => voteLoop g vals a1 ts
 
-/-- the second loop, over `currValidators` (a Go map: the sums do not depend on the order) -/
+/-- one iteration of the second loop, over `currValidators` (a Go map: the sums do not depend on the order) -/
+def valStep (vals : List TVal) (a : TAcc) (b : TAcc) (v : Nat) : TAcc :=
+  let tv := tvAt vals v
+  if tv.bonded ∧ ¬ (a.vote v).isEmpty then
+    let after : Dec := ⟨tv.shares.m - a.ded v⟩
+    let p := sharePower tv after
+    { b with res := addWeighted b.res p (a.vote v), total := b.total + p.m }
+  else b
+
 def valLoop (vals : List TVal) (a : TAcc) : Nat → TAcc
   | 0 => a
-  | v + 1 =>
-    let a0 := valLoop vals a v
-    match vals[v]? with
-    | some tv =>
-      if tv.bonded ∧ ¬ (a.vote v).isEmpty then
-        let after : Dec := ⟨tv.shares.m - a.ded v⟩
-        let p := sharePower tv after
-        { a0 with res := addWeighted a0.res p (a.vote v), total := a0.total + p.m }
-      else a0
-    | none => a0
+  | v + 1 => valStep vals a (valLoop vals a v) v
 
 structure TallyOut where
   yes : Int
@@ -551,9 +566,12 @@ def tally (g : Cfg) (vals : List TVal) (votes : List TVote) : Option TallyOut :=
 
 def TallyOut.counted (o : TallyOut) : Int := o.yes + o.abstain + o.no + o.veto
 
-/-- `TotalBondedTokens` as the sum of the bonded validators' tokens -/
-def bondedTotal : List TVal → Int
-  | [] => 0
-  | tv :: t => (if tv.bonded then tv.tokens else 0) + bondedTotal t
+def sumTo : Nat → (Nat → Int) → Int
+  | 0, _ => 0
+  | n + 1, f => sumTo n f + f n
+
+/-- the tokens of the validators in the handler's set (≤ `TotalBondedTokens`) -/
+def bondedTotal (vals : List TVal) : Int :=
+  sumTo vals.length (fun v => if (tvAt vals v).bonded then (tvAt vals v).tokens else 0)
 
 end KV.Liquid
